@@ -282,92 +282,109 @@ def decKey (bs : Bytes) : Option (Bytes × Bytes) :=
       | _ => none
     else textKey b rest
 
+/-- major type 0 -/
+def decUInt (ai : Nat) (rest : Bytes) : Option (Val × Bytes) :=
+  match decodeArg ai rest with
+  | some (n, r) => some (.uint n, r)
+  | none => none
+
+/-- major type 1 -/
+def decNInt (ai : Nat) (rest : Bytes) : Option (Val × Bytes) :=
+  match decodeArg ai rest with
+  | some (n, r) =>
+    if n = 18446744073709551615 then some (.uint 0, r)      -- refmt overflow quirk
+    else if n ≥ 9223372036854775808 then none
+    else some (.nint n, r)
+  | none => none
+
+/-- a byte string that carried tag `t`: only tag 42 with 0x00 ++ <valid CID> -/
+def taggedBytes (t : Nat) (s r' : Bytes) : Option (Val × Bytes) :=
+  if t = 42 then
+    match s with
+    | 0 :: c => if validCid c then some (.link c, r') else none
+    | _ => none
+  else none
+
+/-- major type 2; `tag` = the tag just read -/
+def decBytes (tag : Option Nat) (ai : Nat) (rest : Bytes) : Option (Val × Bytes) :=
+  match decodeArg ai rest with
+  | some (n, r) =>
+    if n > maxStrLen then none else
+    match takeN n r with
+    | some (s, r') =>
+      match tag with
+      | none => some (.bytes s, r')
+      | some t => taggedBytes t s r'
+    | none => none
+  | none => none
+
+/-- major type 3 -/
+def decText (ai : Nat) (rest : Bytes) : Option (Val × Bytes) :=
+  match decodeArg ai rest with
+  | some (n, r) =>
+    if n > maxStrLen then none else
+    match takeN n r with
+    | some (s, r') => some (.text s, r')
+    | none => none
+  | none => none
+
+/-- a float of `k` bytes widened by `widen` -/
+def decFloat (k : Nat) (widen : Nat → Nat) (rest : Bytes) : Option (Val × Bytes) :=
+  match takeN k rest with
+  | some (h, r) => if finiteF64 (widen (beNat h)) then some (.float (widen (beNat h)), r) else none
+  | none => none
+
+/-- major type 7 -/
+def decSimple (ai : Nat) (rest : Bytes) : Option (Val × Bytes) :=
+  if ai = 20 then some (.bool false, rest)
+  else if ai = 21 then some (.bool true, rest)
+  else if ai = 22 then some (.null, rest)
+  else if ai = 23 then some (.null, rest)
+  else if ai = 25 then decFloat 2 f16to64 rest
+  else if ai = 26 then decFloat 4 f32to64 rest
+  else if ai = 27 then decFloat 8 id rest
+  else none
+
+/-- the items that contain no further items (major types 0-3 and 7; 4, 5, 6 are handled by
+    `decVal`); `tag` = the tag just read -/
+def decScalar (tag : Option Nat) (b : UInt8) (rest : Bytes) : Option (Val × Bytes) :=
+  if b.toNat / 32 = 0 then decUInt (b.toNat % 32) rest
+  else if b.toNat / 32 = 1 then decNInt (b.toNat % 32) rest
+  else if b.toNat / 32 = 2 then decBytes tag (b.toNat % 32) rest
+  else if b.toNat / 32 = 3 then decText (b.toNat % 32) rest
+  else decSimple (b.toNat % 32) rest
+
+/-- wrap decoded list items -/
+def arrayK : Option (List Val × Bytes) → Option (Val × Bytes)
+  | some (xs, r') => some (.array xs, r')
+  | none => none
+
+/-- wrap decoded map entries; duplicate keys are rejected -/
+def mapK : Option (List (Bytes × Val) × Bytes) → Option (Val × Bytes)
+  | some (kvs, r') => if hasDupKey kvs then none else some (.map kvs, r')
+  | none => none
+
 mutual
-/-- one data item. `fuel` bounds the recursion (any value > twice the input length suffices),
-    `depth` = number of enclosing maps/lists, `tag` = the tag just read (if any). -/
+/-- one data item. `fuel` bounds the recursion (`GS.Cbor.decodeVal_fuel_indep`: any value >= twice
+    the number of bytes the item occupies gives the same result, so running out of fuel never
+    happens in `decodeVal`), `depth` = number of enclosing maps/lists, `tag` = the tag just read. -/
 def decVal : Nat → Nat → Option Nat → Bytes → Option (Val × Bytes)
   | 0, _, _, _ => none
   | _ + 1, _, _, [] => none
   | fuel + 1, depth, tag, b :: rest =>
-    let major := b.toNat / 32
-    let ai := b.toNat % 32
-    if major = 0 then
-      match decodeArg ai rest with
-      | some (n, r) => some (.uint n, r)
-      | none => none
-    else if major = 1 then
-      match decodeArg ai rest with
-      | some (n, r) =>
-        if n = 18446744073709551615 then some (.uint 0, r)      -- refmt overflow quirk
-        else if n ≥ 9223372036854775808 then none
-        else some (.nint n, r)
-      | none => none
-    else if major = 2 then
-      match decodeArg ai rest with
-      | some (n, r) =>
-        if n > maxStrLen then none else
-        match takeN n r with
-        | some (s, r') =>
-          match tag with
-          | none => some (.bytes s, r')
-          | some t =>
-            if t = 42 then
-              match s with
-              | 0 :: c => if validCid c then some (.link c, r') else none
-              | _ => none
-            else none
-        | none => none
-      | none => none
-    else if major = 3 then
-      match decodeArg ai rest with
-      | some (n, r) =>
-        if n > maxStrLen then none else
-        match takeN n r with
-        | some (s, r') => some (.text s, r')
-        | none => none
-      | none => none
-    else if major = 4 then
-      match decodeArg ai rest with
-      | some (n, r) =>
-        if depth ≥ maxDepth then none else
-        match decList fuel (depth + 1) n r with
-        | some (xs, r') => some (.array xs, r')
-        | none => none
-      | none => none
-    else if major = 5 then
-      match decodeArg ai rest with
-      | some (n, r) =>
-        if depth ≥ maxDepth then none else
-        match decKVs fuel (depth + 1) n r with
-        | some (kvs, r') => if hasDupKey kvs then none else some (.map kvs, r')
-        | none => none
-      | none => none
-    else if major = 6 then
+    if b.toNat / 32 = 4 then
+      (decodeArg (b.toNat % 32) rest).bind fun nr =>
+        if depth ≥ maxDepth then none else arrayK (decList fuel (depth + 1) nr.1 nr.2)
+    else if b.toNat / 32 = 5 then
+      (decodeArg (b.toNat % 32) rest).bind fun nr =>
+        if depth ≥ maxDepth then none else mapK (decKVs fuel (depth + 1) nr.1 nr.2)
+    else if b.toNat / 32 = 6 then
       match tag with
       | some _ => none
       | none =>
-        match decodeArg ai rest with
-        | some (t, r) => if t ≥ 9223372036854775808 then none else decVal fuel depth (some t) r
-        | none => none
-    else
-      -- major 7
-      if ai = 20 then some (.bool false, rest)
-      else if ai = 21 then some (.bool true, rest)
-      else if ai = 22 then some (.null, rest)
-      else if ai = 23 then some (.null, rest)
-      else if ai = 25 then
-        match takeN 2 rest with
-        | some (h, r) => let f := f16to64 (beNat h); if finiteF64 f then some (.float f, r) else none
-        | none => none
-      else if ai = 26 then
-        match takeN 4 rest with
-        | some (h, r) => let f := f32to64 (beNat h); if finiteF64 f then some (.float f, r) else none
-        | none => none
-      else if ai = 27 then
-        match takeN 8 rest with
-        | some (h, r) => let f := beNat h; if finiteF64 f then some (.float f, r) else none
-        | none => none
-      else none
+        (decodeArg (b.toNat % 32) rest).bind fun tr =>
+          if tr.1 ≥ 9223372036854775808 then none else decVal fuel depth (some tr.1) tr.2
+    else decScalar tag b rest
 /-- exactly `n` items -/
 def decList : Nat → Nat → Nat → Bytes → Option (List Val × Bytes)
   | _, _, 0, bs => some ([], bs)
